@@ -55,7 +55,7 @@ theorem gen_bup_parse_empty (grow : Nat → Nat → Nat) (fuel : Nat) (lcp : Sli
     unfold Slice.slice
     simp [Slice.cap]
   unfold blockNU at h
-  unfold bucketParser_Parse
+  unfold bucketParser_Parse bucketParser_Parse_nilable; simp only [Bool.false_eq_true]
   by_cases hgt : (Int.ofNat s.bucketDictionary.ParserBuffer.Data.len) - s.bucketDictionary.ParserBuffer.W > s.BUPConfig.BlockSize
   · have hB : s.BUPConfig.BlockSize = 0 := by simpa only [hgt, if_true] using h
     have hge : (Int.ofNat s.bucketDictionary.ParserBuffer.Data.len) - s.bucketDictionary.ParserBuffer.W ≥ s.BUPConfig.BlockSize := by
@@ -176,7 +176,7 @@ theorem gen_bup_parse (grow : Nat → Nat → Nat) (fuel : Nat) (lcp : Slice →
     unfold Slice.slice
     simp [Slice.cap]
   generalize hG : bucketParser_Parse grow fuel lcp s blk flags = G
-  unfold bucketParser_Parse at hG
+  unfold bucketParser_Parse bucketParser_Parse_nilable at hG; simp only [Bool.false_eq_true] at hG
   simp only [if_false] at hG
   simp only [hnG, hnG'] at hG
   rw [hs0, bind_ok, if_neg (by omega)] at hG
